@@ -59,7 +59,7 @@ static bool mute = false;
 
 static RoutineToken tok_of(uint64_t r) { return r < W->toks.size() ? W->toks[r] : RoutineToken(); }
 
-static size_t create_routine(World *w, size_t d, bool now);
+static bool create_routine(World *w, size_t d, bool now);
 
 // runs inside the routine
 static void interpret(World *w, size_t self, std::shared_ptr<Script> sc, Scheduler &sch) {
@@ -86,8 +86,8 @@ static void interpret(World *w, size_t self, std::shared_ptr<Script> sc, Schedul
                 break;
             case 'j': fail_if(sch.join(o.a < w->toks.size() ? w->toks[o.a] : RoutineToken())); break;
             case 'n': case 'N':
-                // package assumption: no create() while cleanup() iterates the cabinet
-                if (w->in_cleanup) fail_if(false); else create_routine(w, o.a, o.kind == 'n');
+                // Scheduler::create() refuses (null token) while cleanup() is running (patches/C18-04)
+                fail_if(create_routine(w, o.a, o.kind == 'n'));
                 break;
             case 'x': fail_if(sch.cancel(o.a < w->toks.size() ? w->toks[o.a] : RoutineToken())); break;
             case 'e': w->info[self].finished = true; return;
@@ -100,14 +100,18 @@ static void interpret(World *w, size_t self, std::shared_ptr<Script> sc, Schedul
     w->info[self].finished = true;
 }
 
-static size_t create_routine(World *w, size_t d, bool now) {
+static bool create_routine(World *w, size_t d, bool now) {
     size_t idx = w->toks.size();
     std::shared_ptr<Script> sc = w->defs[d];
     w->info.emplace_back();
     w->toks.push_back(RoutineToken());
     RoutineToken t = w->sch.create([w, idx, sc](Scheduler &s) { interpret(w, idx, sc, s); }, now, "r", kStack);
+    if (t.isNull()) {   // refused: no routine exists, the index is not used
+        w->info.pop_back(); w->toks.pop_back();
+        return false;
+    }
     w->toks[idx] = t;
-    return idx;
+    return true;
 }
 
 static bool num(const std::string &s, uint64_t &v, uint64_t lim) { return vh::to_u64(s, v) && s.size() <= 6 && v < lim; }
